@@ -28,7 +28,7 @@ ASSUMPTIONS = ["a sub-daily reading covers its nominal interval (15/30/60 min), 
                "billing reads are monthly when the median period is <= 35 days, else bi-monthly"]
 REQUIRED_REACH = {"dataset.judged": 40, "billing.periods_judged": 100, "billing.offcycle_periods": 5, "subdaily.days_judged": 1000, "subdaily.full_days": 800,
                   "subdaily.partial_days_over_half": 10, "subdaily.days_half_or_less": 10, "subdaily.dst_days": 5, "post.as_freq_cumulative": 30,
-                  "post.clean_billing_data": 10, "subdaily.series_starting_midday": 6, "billing.gas_zero_reads": 1, "subdaily.gas_all_zero_days": 3, "billing.net_metered_credit_bills": 3, "subdaily.net_metered_negative_readings": 2000}
+                  "post.clean_billing_data": 10, "subdaily.series_starting_midday": 6, "billing.gas_zero_reads": 1, "subdaily.gas_all_zero_days": 3, "billing.net_metered_credit_bills": 3, "entry.frame_with_datetime_column": 6, "subdaily.net_metered_negative_readings": 2000}
 
 VIOL = []
 
@@ -132,7 +132,11 @@ def billing_case(spec, rng, keys):
         else:
             df = pd.DataFrame({"temperature": temp})
             df["observed"] = reads.reindex(didx)
-            data = cls(df.iloc[:-1], is_electricity_data=not gas)
+            fr_ = df.iloc[:-1]
+            if spec["n"] % 3 != 2:
+                fr_ = fr_.rename_axis("datetime").reset_index()          # the documented tz-aware 'datetime' column instead of the index
+                I.reach("entry.frame_with_datetime_column")
+            data = cls(fr_, is_electricity_data=not gas)
     except Exception as e:
         add("constructor-raised:billing:%s" % type(e).__name__, "billing %s entry raised %s: %s" % (spec["entry"], type(e).__name__, str(e)[:160]), **tag)
         return 1
@@ -286,6 +290,9 @@ def subdaily_case(spec, rng, keys):
             df = df.join(meter.rename("observed"), how="outer")
             if minutes < 60:
                 df["temperature"] = df["temperature"].ffill()
+            if spec["n"] % 3 != 2:
+                df = df.rename_axis("datetime").reset_index()            # the documented tz-aware 'datetime' column instead of the index
+                I.reach("entry.frame_with_datetime_column")
             data = em.DailyBaselineData(df, is_electricity_data=electric)
     except Exception as e:
         import traceback
